@@ -305,9 +305,10 @@ def catalogue(rng, quick):
                 cases.append(with_form(rng, {"stream": "boundary", "tag": cls + "/" + tag, "expect": "reject:" + cls,
                                              "exact": True, "doc": d}, p_history=0.05))
         for tag, d in nb.near_misses(rng, doc):
-            cases.append(with_form(rng, {"stream": "near-miss", "tag": tag, "expect": "", "exact": True, "doc": d},
+            # an abutting / detached extra rectangle on a hard module is a well-formed design
+            exp = "accept" if tag in ("overlap-touching", "overlap-gap") else ""
+            cases.append(with_form(rng, {"stream": "near-miss", "tag": tag, "expect": exp, "exact": True, "doc": d},
                                    p_history=0.05))
-        cases.append({"stream": "small-scale", "expect": "accept", "exact": True, "doc": nb.small_scale(rng, doc)})
     for cfg in (nb.SIZES_QUICK if quick else nb.SIZES_THOROUGH):
         cases.append(with_form(rng, {"stream": "size", "tag": " ".join(f"{k}={v}" for k, v in cfg.items()), "expect": "accept",
                                      "exact": True, "doc": nb.sized_doc(rng, **cfg)}, p_history=0.0))
@@ -327,7 +328,7 @@ def dist_key(c):
 
 
 def run(ctx, out, replay=None):
-    n = 1300 if ctx.quick() else 15000
+    n = 1300 if ctx.quick() else 10000
     out.rule = ("(a) catalogue: on documents holding every kind of module, every boundary instance of every listed defect "
                 "class (harness/props/netlist_boundary.py: zeros of every spelling, False, the smallest negative floats, an "
                 "area equal to the rectangles' on a hard module - number, ground mapping, split over regions, one ulp-ish "
@@ -358,14 +359,16 @@ def run(ctx, out, replay=None):
     out.extra["boundary_instances"] = len(tags)
     out.extra["boundary_tags"] = tags
     out.extra["near_miss_tags"] = sorted({c["tag"] for c in cases if c.get("stream") == "near-miss"})
-    forms = {}
+    forms, seen_pairs = {}, []
 
     def run_impl(case):
         obs = nc.run_impl(case)
         forms[obs.get("via", "?")] = forms.get(obs.get("via", "?"), 0) + 1
+        seen_pairs.append((case, obs))
         return obs
     fr.run_cases(ctx, out, cases, run_impl, nc.to_coq, oracle, failure_key, HEADER,
                  dist_key=dist_key, nontrivial=nontrivial, shard=100, shrink=shrink)
     out.extra["input_forms"] = forms
+    nc.reason_stat(ctx, out, seen_pairs[:len(cases)])
     for f in out.failures:      # a shrunk input is filed under the failure it shows
         f["key"] = failure_key(None, f.get("why"))
